@@ -317,6 +317,9 @@ func GenMuxOps(r *core.PRNG, n int, period int, rich, invalid, allowDisc, big bo
 				if ps.AF.Stuffing < 0 {
 					ps.AF = refts.StuffAF(nil, 184)
 				}
+				if r.Chance(1, 3) {
+					ps.Stale = r.Range(1, 200) // Payload left over from an earlier use of the struct
+				}
 			default: // does not fit
 				ps.HasPayload = true
 				if r.Chance(1, 3) {
